@@ -8,6 +8,7 @@ package xstar
 //@   immutable: p s closeq sendq
 //@
 //@ struct socket
+//@   close_token closeq when closed
 //@   lock Mutex level 20
 //@   guarded_by Mutex: closed pipes recvQLen sendQLen recvExpire recvq ttl
 //@   immutable: closeq
@@ -74,3 +75,6 @@ package xstar
 //@
 //@ func (*socket).AddPipe
 //@   before call:SetPrivate#1 assert cap(p.sendq) == s.sendQLen
+//@
+//@ func (*socket).RemovePipe
+//@   may_close p.closeq caller
